@@ -966,6 +966,15 @@ func (c *Context) Exp(d, x *Decimal) (Condition, error) {
 	}
 	verifTape("exp.cp", int64(cp), nil)
 	var tmp2 Decimal
+	// f is |x| rounded to a float64, so cp*23 can still be just below |x|
+	// (Exp(5750.00000000000000000000000000001) at Precision 16 would be
+	// reported as an overflow): one more digit of working precision covers
+	// that.
+	if tmp2.SetInt64(int64(cp+1) * 23); cp < 999 && tmp1.Cmp(&tmp2) <= 0 {
+		if tmp2.SetInt64(int64(cp) * 23); tmp1.Cmp(&tmp2) > 0 {
+			cp++
+		}
+	}
 	tmp2.SetInt64(int64(cp) * 23)
 	// if abs(x) > 23*currentprecision; assert false
 	if tmp1.Cmp(&tmp2) > 0 {
